@@ -88,8 +88,7 @@ type fixture struct {
 	who        string
 	occ        map[string]int
 	events     []event
-	wrongOrder bool
-	seenSec    map[string]bool // phase -> a secondary RPC of the phase was seen
+	secOrder   map[string][]int // phase -> secondary regions in the order the writer first contacted them
 	readerHook func(method string, region, occ int)
 	inReader   bool
 }
@@ -154,15 +153,14 @@ func (f *fixture) intercept(ctx context.Context, req any, info *grpc.UnaryServer
 	}
 	f.mu.Lock()
 	who := f.who
-	// enforce the case's order of the two secondary regions when it can matter
-	if who == "writer" && (method == "prewrite" || method == "commit") {
-		if first, enforce := f.c.firstSecondary(method); enforce && !f.seenSec[method] && region != f.c.Keys[f.c.Primary].Region {
-			f.seenSec[method] = true
-			if region != first {
-				f.wrongOrder = true
-				f.mu.Unlock()
-				return nil, status.Error(codes.Unavailable, "c28: secondary order differs from the case, attempt discarded")
-			}
+	// remember in which order the writer visits the secondary regions of a phase
+	if who == "writer" && (method == "prewrite" || method == "commit") && region != f.c.Keys[f.c.Primary].Region {
+		seen := false
+		for _, r := range f.secOrder[method] {
+			seen = seen || r == region
+		}
+		if !seen {
+			f.secOrder[method] = append(f.secOrder[method], region)
 		}
 	}
 	k := slotKey(method, region)
@@ -255,7 +253,7 @@ func (r resolver) GetRegionByKey(_ context.Context, req *pb.GetRegionByKeyReques
 func (r resolver) Close() error { return nil }
 
 func newFixture(c Case) (f *fixture, err error) {
-	f = &fixture{c: c, listeners: map[string]*bufconn.Listener{}, occ: map[string]int{}, seenSec: map[string]bool{}, who: "seed"}
+	f = &fixture{c: c, listeners: map[string]*bufconn.Listener{}, occ: map[string]int{}, secOrder: map[string][]int{}, who: "seed"}
 	defer func() {
 		if p := recover(); p != nil {
 			err = fmt.Errorf("fixture panic: %v", p)
@@ -344,6 +342,17 @@ func (f *fixture) newClient(kind string, maxRetries int) (*client.Client, error)
 }
 
 func (f *fixture) setWho(w string) { f.mu.Lock(); f.who = w; f.mu.Unlock() }
+
+func (f *fixture) lastWriterEvent() event {
+	f.mu.Lock()
+	defer f.mu.Unlock()
+	for i := len(f.events) - 1; i >= 0; i-- {
+		if f.events[i].Who == "writer" {
+			return f.events[i]
+		}
+	}
+	return event{}
+}
 
 func (f *fixture) trace() string {
 	f.mu.Lock()
